@@ -1128,10 +1128,10 @@ func TestVerifBearer(t *testing.T) {
 		bsEnumerate(session("se"))
 	}
 	srng := verifRng(1414)
-	for i, ns := 0, verifN(700, 40000); i < ns; i++ {
+	for i, ns := 0, verifN(700, 30000); i < ns; i++ {
 		session("sr")(bsRandom(srng))
 	}
-	nr := verifN(4000, 400000)
+	nr := verifN(4000, 300000)
 	rng := verifRng(14)
 	for i := 0; i < nr; i++ {
 		c := brRandom(rng)
